@@ -22,7 +22,7 @@ func (c17) ID() string { return "C17" }
 
 func (c17) Budget(tier string) int {
 	if tier == "thorough" {
-		return 60000
+		return 600000
 	}
 	return 12600
 }
